@@ -190,8 +190,12 @@ func (r *renderer) node(fb *fileBuf, n *Node, depth int) {
 	fb.w(n.Kw)
 	fb.lex = append(fb.lex, XLex{"K", kb, fb.b.Len() - 1, n.Kw})
 	r.recordLoc(r.out.Locs, n.ID, Loc{File: fb.name, Line: fb.line, Index: kb})
-	// parameters
-	for _, p := range n.Params {
+	// parameters (the two parameters of TYPE and Query may be written in either order)
+	params := n.Params
+	if len(params) == 2 && (n.Kw == "TYPE" || n.Kw == "Query") && l.Choose("paramorder", 2) == 1 {
+		params = []string{params[1], params[0]}
+	}
+	for _, p := range params {
 		if l.Choose("blank", 2) == 1 {
 			fb.w(" \t ")
 		} else {
@@ -208,7 +212,7 @@ func (r *renderer) node(fb *fileBuf, n *Node, depth int) {
 	// annotation
 	annStyle := 0
 	if n.Ann != "" {
-		annStyle = l.Choose("ann", 3)
+		annStyle = l.Choose("ann", 5)
 		switch annStyle {
 		case 0:
 			fb.w(" //")
@@ -220,6 +224,18 @@ func (r *renderer) node(fb *fileBuf, n *Node, depth int) {
 			ab := fb.b.Len()
 			fb.w(" " + n.Ann + " ")
 			fb.lex = append(fb.lex, XLex{"A", ab, fb.b.Len() - 1, " " + n.Ann + " "})
+			fb.w("*/")
+		case 3: // no blank before the closing mark
+			fb.w(" /*")
+			ab := fb.b.Len()
+			fb.w(" " + n.Ann)
+			fb.lex = append(fb.lex, XLex{"A", ab, fb.b.Len() - 1, " " + n.Ann})
+			fb.w("*/")
+		case 4: // no blank after the opening mark
+			fb.w(" /*")
+			ab := fb.b.Len()
+			fb.w(n.Ann + " ")
+			fb.lex = append(fb.lex, XLex{"A", ab, fb.b.Len() - 1, n.Ann + " "})
 			fb.w("*/")
 		case 2:
 			fb.w(" /*")
